@@ -110,4 +110,137 @@ Proof. exact (@EquivWiring.middlewares_tie). Qed.
 Print Assumptions C09_code_middlewares_tie.
 
 
+(* ---- `nauyaca serve --reload` (DESIGN.md 11.17): the parent starts no server; it hands its command line minus the reload flags
+   to a child that is the server.  Theorems over Model/Reload.v for ALL argument lists (proofs: Proofs/C09_reload.v) ---- *)
+From NV Require Model.Reload Proofs.C09_reload.
+(* no argument other than a reload flag or the value of --reload-dir / --reload-ext is dropped, changed or reordered *)
+Theorem C09_reload_strip_keeps : forall pre a post, Reload.dangling pre = false -> Reload.reloadish a = false ->
+  Reload.strip_reload (pre ++ a :: post) = Reload.strip_reload pre ++ a :: Reload.strip_reload post.
+Proof. exact C09_reload.strip_keeps. Qed.
+Print Assumptions C09_reload_strip_keeps.
+
+(* --config=V reaches the child for every V (V may contain "reload") *)
+Theorem C09_reload_strip_keeps_config_eq : forall pre V post, Reload.dangling pre = false ->
+  Reload.strip_reload (pre ++ (lit "--config=" ++ V) :: post) = Reload.strip_reload pre ++ (lit "--config=" ++ V) :: Reload.strip_reload post.
+Proof. exact C09_reload.strip_keeps_config_eq. Qed.
+Print Assumptions C09_reload_strip_keeps_config_eq.
+
+(* --config V / -c V: both tokens, adjacent and in order, for every V that does not begin with "--reload" *)
+Theorem C09_reload_strip_keeps_config : forall pre V post, Reload.dangling pre = false -> prefixb (lit "--reload") V = false ->
+  Reload.strip_reload (pre ++ lit "--config" :: V :: post) = Reload.strip_reload pre ++ lit "--config" :: V :: Reload.strip_reload post.
+Proof. exact C09_reload.strip_keeps_config. Qed.
+Print Assumptions C09_reload_strip_keeps_config.
+
+Theorem C09_reload_strip_keeps_c : forall pre V post, Reload.dangling pre = false -> prefixb (lit "--reload") V = false ->
+  Reload.strip_reload (pre ++ lit "-c" :: V :: post) = Reload.strip_reload pre ++ lit "-c" :: V :: Reload.strip_reload post.
+Proof. exact C09_reload.strip_keeps_c. Qed.
+Print Assumptions C09_reload_strip_keeps_c.
+
+(* what is dropped after a value-taking reload flag is exactly one token, and nothing else is disturbed *)
+Theorem C09_reload_strip_app_dangling : forall pre x l, Reload.dangling pre = true ->
+  Reload.strip_reload (pre ++ x :: l) = Reload.strip_reload pre ++ Reload.strip_reload l /\ Reload.dangling (pre ++ x :: l) = Reload.dangling l.
+Proof. exact C09_reload.strip_app_dangling. Qed.
+Print Assumptions C09_reload_strip_app_dangling.
+
+(* the child is never told to reload (it is the server, not another supervisor); no reload flag form survives *)
+Theorem C09_reload_strip_no_reload : forall l, ~ In Reload.f_reload (Reload.strip_reload l).
+Proof. exact C09_reload.strip_no_reload. Qed.
+Print Assumptions C09_reload_strip_no_reload.
+
+Theorem C09_reload_strip_none_reloadish : forall l x, In x (Reload.strip_reload l) -> Reload.reloadish x = false.
+Proof. exact C09_reload.strip_none_reloadish. Qed.
+Print Assumptions C09_reload_strip_none_reloadish.
+
+(* nothing is added, changed or reordered *)
+Theorem C09_reload_strip_subseq : forall l, C09_reload.subseq (Reload.strip_reload l) l.
+Proof. exact C09_reload.strip_subseq. Qed.
+Print Assumptions C09_reload_strip_subseq.
+
+(* without reload flags the filter is the identity *)
+Theorem C09_reload_strip_id : forall l, (forall x, In x l -> Reload.reloadish x = false) ->
+  Reload.strip_reload l = l /\ Reload.dangling l = false.
+Proof. exact C09_reload.strip_id. Qed.
+Print Assumptions C09_reload_strip_id.
+
+(* the child's command line; together: the child's argv is the parent's minus exactly the reload flags *)
+Theorem C09_reload_child_command_shape : forall exe args, Reload.child_command exe args = exe :: lit "-m" :: lit "nauyaca" :: args.
+Proof. exact C09_reload.child_command_shape. Qed.
+Print Assumptions C09_reload_child_command_shape.
+
+Theorem C09_reload_child_keeps : forall exe pre a post, Reload.dangling pre = false -> Reload.reloadish a = false ->
+  Reload.child_argv exe (pre ++ a :: post) =
+  (exe :: lit "-m" :: lit "nauyaca" :: lit "serve" :: Reload.strip_reload pre) ++ a :: Reload.strip_reload post.
+Proof. exact C09_reload.child_keeps. Qed.
+Print Assumptions C09_reload_child_keeps.
+
+Theorem C09_reload_child_keeps_config_eq : forall exe pre V post, Reload.dangling pre = false ->
+  In (lit "--config=" ++ V) (Reload.child_argv exe (pre ++ (lit "--config=" ++ V) :: post)).
+Proof. exact C09_reload.child_keeps_config_eq. Qed.
+Print Assumptions C09_reload_child_keeps_config_eq.
+
+(* ---- tie to the code (__main__.py serve: the filter over sys.argv[2:]; server/reload/supervisor.py: run_with_reload, Supervisor.__init__,
+   _build_command, _start_server): theorems of coq/Equiv/EquivReload.v (statements there), re-checked against the definitions
+   regenerated from /repo's working tree by translate/py2coq_reload.py; see DESIGN.md 11.8 / 11.17 ---- *)
+From NV Require Equiv.EquivReload.
+Theorem C09_code_reload_server_args_tie : ltac:(let t := type of @EquivReload.reload_server_args_tie in exact t).
+Proof. exact (@EquivReload.reload_server_args_tie). Qed.
+Print Assumptions C09_code_reload_server_args_tie.
+
+Theorem C09_code_reload_argv_lower_tie : ltac:(let t := type of @EquivReload.reload_argv_lower_tie in exact t).
+Proof. exact (@EquivReload.reload_argv_lower_tie). Qed.
+Print Assumptions C09_code_reload_argv_lower_tie.
+
+Theorem C09_code_reload_server_args_of_argv_tie : ltac:(let t := type of @EquivReload.reload_server_args_of_argv_tie in exact t).
+Proof. exact (@EquivReload.reload_server_args_of_argv_tie). Qed.
+Print Assumptions C09_code_reload_server_args_of_argv_tie.
+
+Theorem C09_code_reload_declared_flags_tie : ltac:(let t := type of @EquivReload.reload_declared_flags_tie in exact t).
+Proof. exact (@EquivReload.reload_declared_flags_tie). Qed.
+Print Assumptions C09_code_reload_declared_flags_tie.
+
+Theorem C09_code_reload_build_command_tie : ltac:(let t := type of @EquivReload.reload_build_command_tie in exact t).
+Proof. exact (@EquivReload.reload_build_command_tie). Qed.
+Print Assumptions C09_code_reload_build_command_tie.
+
+Theorem C09_code_reload_child_argv_tie : ltac:(let t := type of @EquivReload.reload_child_argv_tie in exact t).
+Proof. exact (@EquivReload.reload_child_argv_tie). Qed.
+Print Assumptions C09_code_reload_child_argv_tie.
+
+Theorem C09_code_reload_serve_passes_filtered_args : ltac:(let t := type of @EquivReload.reload_serve_passes_filtered_args in exact t).
+Proof. exact (@EquivReload.reload_serve_passes_filtered_args). Qed.
+Print Assumptions C09_code_reload_serve_passes_filtered_args.
+
+Theorem C09_code_reload_run_with_reload_resolves : ltac:(let t := type of @EquivReload.reload_run_with_reload_resolves in exact t).
+Proof. exact (@EquivReload.reload_run_with_reload_resolves). Qed.
+Print Assumptions C09_code_reload_run_with_reload_resolves.
+
+Theorem C09_code_reload_run_with_reload_passes_unchanged : ltac:(let t := type of @EquivReload.reload_run_with_reload_passes_unchanged in exact t).
+Proof. exact (@EquivReload.reload_run_with_reload_passes_unchanged). Qed.
+Print Assumptions C09_code_reload_run_with_reload_passes_unchanged.
+
+Theorem C09_code_reload_init_stores_unchanged : ltac:(let t := type of @EquivReload.reload_init_stores_unchanged in exact t).
+Proof. exact (@EquivReload.reload_init_stores_unchanged). Qed.
+Print Assumptions C09_code_reload_init_stores_unchanged.
+
+Theorem C09_code_reload_server_args_assigned_once : ltac:(let t := type of @EquivReload.reload_server_args_assigned_once in exact t).
+Proof. exact (@EquivReload.reload_server_args_assigned_once). Qed.
+Print Assumptions C09_code_reload_server_args_assigned_once.
+
+Theorem C09_code_reload_run_calls_start_server : ltac:(let t := type of @EquivReload.reload_run_calls_start_server in exact t).
+Proof. exact (@EquivReload.reload_run_calls_start_server). Qed.
+Print Assumptions C09_code_reload_run_calls_start_server.
+
+Theorem C09_code_reload_popen_gets_build_command : ltac:(let t := type of @EquivReload.reload_popen_gets_build_command in exact t).
+Proof. exact (@EquivReload.reload_popen_gets_build_command). Qed.
+Print Assumptions C09_code_reload_popen_gets_build_command.
+
+Theorem C09_code_reload_popen_no_shell : ltac:(let t := type of @EquivReload.reload_popen_no_shell in exact t).
+Proof. exact (@EquivReload.reload_popen_no_shell). Qed.
+Print Assumptions C09_code_reload_popen_no_shell.
+
+Theorem C09_code_reload_popen_inherits_env_cwd : ltac:(let t := type of @EquivReload.reload_popen_inherits_env_cwd in exact t).
+Proof. exact (@EquivReload.reload_popen_inherits_env_cwd). Qed.
+Print Assumptions C09_code_reload_popen_inherits_env_cwd.
+
+
 Close Scope N_scope.
